@@ -15,3 +15,4 @@ import SpgProofs.Properties.C08b
 #print axioms Spg.C08.entropy_indep_of_budget
 #print axioms Spg.C08.body_indep_of_budget
 #print axioms Spg.C08.no_environment_inputs
+#print axioms Spg.C08.list_decisions_exact
